@@ -447,6 +447,11 @@ class Schema(dict, metaclass=LogicalMeta):
         args = () if unprovided(default) else (default,)
         return super().pop(field.name, *args)
 
+    def __ior__(self, other):
+        # `schema |= mapping` is an update: every item goes through __setitem__
+        self.update(other)
+        return self
+
     def setdefault(self, key: str, default=None):
         if key in self:
             return self[key]
